@@ -114,6 +114,14 @@ class MemTransport(asyncio.Transport):
     def abort(self):
         self.close()
 
+    def reset(self):
+        """Close this end; the peer gets connection_lost(ConnectionResetError)."""
+        if self.closing:
+            return
+        self.closing = True
+        self._enqueue(("rst", None))
+        self.loop.call_soon(self._lost, None)
+
     def _lost(self, exc):
         if not self.lost:
             self.lost = True
@@ -154,6 +162,15 @@ class MemTransport(asyncio.Transport):
                 return
             peer.bytes_in += len(data)
             peer.proto.data_received(data)
+        elif kind == "rst":
+            if peer.closing:
+                return
+            # like _SelectorTransport._fatal_error: the transport is force-closed and the
+            # protocol is told why
+            peer.closing = True
+            peer.lost = True
+            self.run.probe("connection_reset_delivered")
+            peer.proto.connection_lost(ConnectionResetError(104, "Connection reset by peer"))
         else:
             if peer.eof_received:
                 return
@@ -246,12 +263,17 @@ class Node:
         if not task.cancelled():
             task.exception()   # mark retrieved
 
-    def kill(self):
-        """Process exit: connection closed, task cancelled."""
+    def kill(self, reset=False):
+        """Process exit: connection closed, task cancelled.  With reset=True the peer does not
+        see a clean end of stream but ECONNRESET (what the kernel sends when a process dies
+        with unread data in its socket buffer, or with SO_LINGER 0)."""
         if self.killed:
             return
         self.killed = True
         self.run.rec("node_killed", self.t_node.sid)
-        self.t_node.close()
+        if reset:
+            self.t_node.reset()
+        else:
+            self.t_node.close()
         if self.task is not None and not self.task.done():
             self.task.cancel()
